@@ -51,6 +51,11 @@ type Exec struct {
 	freshRefs    map[string]int
 	discStack    []*discovery
 	firstSec     *State
+	inlinedKeys  map[string]bool
+	split        bool
+	splitLoop    ast.Node
+	loopExits    []*State
+	curWatch     []watchTerm
 }
 
 type deadPanic struct{}
@@ -73,7 +78,7 @@ func (x *Exec) oblige(st *State, name, kind string, pos token.Pos, clause, goal 
 		return
 	}
 	o := &Obligation{Name: name, Func: x.vc.fn, Kind: kind, Pos: x.e.pos(pos), Clause: clause,
-		PC: append([]string(nil), st.pc...), Goal: goal, Extra: extra, vc: x.vc}
+		PC: append([]string(nil), st.pc...), Goal: goal, Extra: extra, vc: x.vc, Watch: x.curWatch}
 	x.vc.obls = append(x.vc.obls, o)
 }
 
@@ -169,6 +174,99 @@ func (x *Exec) block(stmts []ast.Stmt, st *State) *State {
 		st = x.stmt(s, st)
 	}
 	return st
+}
+
+// blockM / stmtM: statement execution that may keep several states alive (path splitting at
+// the exits of top-level loops, enabled per function with `flags splitexits`).
+func (x *Exec) blockM(stmts []ast.Stmt, sts []*State) []*State {
+	for _, s := range stmts {
+		var next []*State
+		for _, st := range sts {
+			next = append(next, x.stmtM(s, st)...)
+		}
+		sts = next
+		if len(sts) == 0 {
+			break
+		}
+	}
+	return sts
+}
+
+func one(st *State) []*State {
+	if st == nil {
+		return nil
+	}
+	return []*State{st}
+}
+
+func (x *Exec) stmtM(s ast.Stmt, st *State) (out []*State) {
+	if !x.split {
+		return one(x.stmt(s, st))
+	}
+	defer func() {
+		if r := recover(); r != nil {
+			if _, ok := r.(deadPanic); ok {
+				out = nil
+				return
+			}
+			panic(r)
+		}
+	}()
+	switch s := s.(type) {
+	case *ast.BlockStmt:
+		return x.blockM(s.List, []*State{st})
+	case *ast.LabeledStmt:
+		x.pendingLabel = s.Label.Name
+		return x.stmtM(s.Stmt, st)
+	case *ast.IfStmt:
+		if s.Init != nil {
+			st = x.stmt(s.Init, st)
+			if st == nil {
+				return nil
+			}
+		}
+		c := x.cond(s.Cond, st)
+		if c == "true" {
+			return x.stmtM(s.Body, st)
+		}
+		s1 := st.Copy()
+		s1.Assume(c)
+		s2 := st
+		s2.Assume(Not(c))
+		thenL := x.stmtM(s.Body, s1)
+		var elseL []*State
+		if c != "false" {
+			if s.Else != nil {
+				elseL = x.stmtM(s.Else, s2)
+			} else {
+				elseL = []*State{s2}
+			}
+		}
+		if c == "false" {
+			return elseL
+		}
+		if len(thenL) <= 1 && len(elseL) <= 1 {
+			live := append(append([]*State{}, thenL...), elseL...)
+			if len(live) == 0 {
+				return nil
+			}
+			m, _ := x.mergeStates(live, nil)
+			return []*State{m}
+		}
+		return append(thenL, elseL...)
+	case *ast.ForStmt, *ast.RangeStmt:
+		x.splitLoop = s
+		x.loopExits = nil
+		r := x.stmt(s, st)
+		x.splitLoop = nil
+		if x.loopExits != nil {
+			ex := x.loopExits
+			x.loopExits = nil
+			return ex
+		}
+		return one(r)
+	}
+	return one(x.stmt(s, st))
 }
 
 func (x *Exec) stmt(s ast.Stmt, st *State) (out *State) {
